@@ -12,7 +12,8 @@ GLUE = ("Trusted: Coq kernel (vm_compute in Examples and tie lemmas; no native_c
         "ocaml/driver.ml, harness/src/*.rs, tools/*.py incl. the source-to-Coq translators srcconsts.py / srccodec.py / srcorder.py / srcfns.py / srchash.py / srcshape.py; "
         "axioms: none (Print Assumptions of every pinned theorem is closed; coqchk -o in the thorough tier); crypto primitives are "
         "parameters of the model, at run time both sides use the blake2/crc32fast/ed25519-dalek crates; dependency crates "
-        "(flat-tree, compact-encoding, random-access-*, moka, async-broadcast, async-lock) are modelled, not verified. ")
+        "(flat-tree, compact-encoding, random-access-memory, random-access-disk over an assumed POSIX file, async-broadcast: modelled in Coq and run against the crates; "
+        "moka, async-lock: modelled abstractly) are modelled, not verified. ")
 
 CHECKS = {
  "C01": C("proof",
